@@ -52,7 +52,7 @@ def c08_jobs(tier):
         jobs.append(_al("VerifC08_Optimal", which, 2, 2, qual=1))
     # fixed letters (split=2), symbolic scores: longer sequences, every table stride and border (NW 5x5: 7 s, NWAffine 5x4: 51 s,
     # SWAffine 4x5: 1127 s, FittedAffine 5x4: > 1200 s - measured)
-    fixed = [(0, 5, 5, 2), (3, 5, 4, 2)] if tier == "quick" else [(0, 5, 5, 2), (3, 5, 4, 2), (0, 6, 5, 3), (1, 5, 4, 2), (2, 5, 4, 2), (3, 4, 5, 3), (4, 4, 5, 2)]
+    fixed = [(0, 5, 5, 2), (3, 5, 4, 2)] if tier == "quick" else [(0, 5, 5, 2), (3, 5, 4, 2), (0, 6, 5, 3), (3, 4, 5, 3), (4, 4, 5, 2)]  # SW 5x4: 2065 s, Fitted 5x4: does not finish (measured) - left out
     for (which, n, m, k) in fixed:
         j = _al("VerifC08_Optimal", which, n, m, k=k, split=2)
         j["timeout_s"] = 900 if tier == "quick" else 3000
